@@ -55,6 +55,19 @@ type Prog struct {
 	Grammar string        `json:"grammar"`
 	Cfg     simrt.InstCfg `json:"cfg"`
 	Steps   []Step        `json:"steps"`
+	// Marathon: a very long history on one instance, described instead of
+	// listed: step k uses Rare[(k/Period) mod len] when k is a multiple of
+	// Period and Filler otherwise, for Cycles*Period+1 steps. With U=uint16
+	// and Period=65536 it probes everything that counts operations in a
+	// value of type U (the property allows any U the input fits into).
+	Marathon *Marathon `json:"marathon,omitempty"`
+}
+
+type Marathon struct {
+	Period int      `json:"period"`
+	Cycles int      `json:"cycles"`
+	Rare   []string `json:"rare"`
+	Filler string   `json:"filler"`
 }
 
 type Case struct {
@@ -67,6 +80,10 @@ type Case struct {
 	Cfg       simrt.InstCfg      `json:"cfg"`
 	FaultTape []uint32           `json:"fault_tape,omitempty"`
 	FaultCfg  simrt.MemoFaultCfg `json:"fault_cfg"`
+	// c06 on reused instances: a memoising and a non-memoising instance step
+	// through the same history (Buffer=…; Reset(); Parse()) side by side
+	History  []string  `json:"history,omitempty"`
+	Marathon *Marathon `json:"c06_marathon,omitempty"`
 	// c12
 	Prog *Prog `json:"prog,omitempty"`
 	// c14
@@ -81,6 +98,9 @@ type Case struct {
 	// computed afterwards, so that, when this is the first case of a process,
 	// the clients meet every lazily initialised package-level state cold
 	Cold bool `json:"cold,omitempty"`
+	// freeze strategy, see simrt.Config
+	FreezeClient int `json:"freeze_client,omitempty"`
+	FreezeAt     int `json:"freeze_at,omitempty"`
 }
 
 type Job struct {
@@ -281,7 +301,84 @@ func counted(limit uint64, f func()) (steps uint64, over bool) {
 
 // ---------- C06 ----------
 
+// runC06History: the memoising and the non-memoising parser are both
+// long-lived and reused through Reset; they must agree at every step.
+func runC06History(c Case) (out Outcome) {
+	out.Stats = map[string]int{}
+	g := simrt.LookupGrammar(c.Grammar)
+	if g == nil {
+		out.Skipped = "unknown grammar " + c.Grammar
+		return
+	}
+	total := len(c.History)
+	input := func(k int) (string, bool) { return c.History[k], true }
+	if m := c.Marathon; m != nil {
+		if m.Period < 1 || len(m.Rare) == 0 {
+			out.Skipped = "bad marathon"
+			return
+		}
+		total = m.Cycles*m.Period + 1
+		input = func(k int) (string, bool) {
+			if k%m.Period == 0 {
+				return m.Rare[(k/m.Period)%len(m.Rare)], true
+			}
+			return m.Filler, k%m.Period == 1 || k%1031 == 0
+		}
+	}
+	refCfg, subCfg := c.Cfg, c.Cfg
+	refCfg.NoMemo, subCfg.NoMemo = true, false
+	var ref, sub simrt.Instance
+	h := simrt.NewHash().AddString(c.Grammar)
+	simrt.ArmMemoFaults(c.FaultTape, c.FaultCfg)
+	defer simrt.DisarmMemoFaults()
+	_, over := counted(uint64(total)*40000+2*absBudget, func() {
+		for k := 0; k < total; k++ {
+			in, check := input(k)
+			st := Step{Input: in, Entry: -1, Exec: check, AST: check, Tree: check}
+			if k == 0 {
+				ref, sub = g.New(refCfg, in), g.New(subCfg, in)
+			} else {
+				ref.SetBuffer(in)
+				ref.Reset()
+				sub.SetBuffer(in)
+				sub.Reset()
+			}
+			a, b := doStep(ref, st), doStep(sub, st)
+			if check && a.String() != b.String() {
+				out.Class = "memo_visible"
+				if b.Panic != "" && a.Panic == "" {
+					out.Class = "memo_panic"
+				}
+				out.Detail = fmt.Sprintf("grammar %s cfg %+v, both parsers reused through Buffer=…; Reset(); Parse(): step %d of %d, input %q\n  DisableMemoize: %s\n  memoising     : %s",
+					c.Grammar, c.Cfg, k+1, total, in, a, b)
+				return
+			}
+			if k < 64 {
+				h = h.AddString(in)
+			}
+		}
+	})
+	ms := simrt.Memo
+	out.Stats["memo_hits"] = int(ms.Lookups)
+	out.Stats["memo_stores"] = int(ms.Stores)
+	out.Stats["fault_drop_store"] = int(ms.Dropped)
+	out.Stats["fault_miss_lookup"] = int(ms.Missed)
+	out.Stats["fault_evict_all"] = int(ms.Evict)
+	out.Stats["reuse_histories"] = 1
+	out.Stats["reuse_history_steps"] = total
+	if over && out.Class == "" {
+		out.Skipped = "history exceeds the step budget"
+		return
+	}
+	out.Nontrivial = true
+	out.Sig = uint64(h.AddUint(uint64(total)))
+	return
+}
+
 func runC06(c Case) (out Outcome) {
+	if len(c.History) > 0 || c.Marathon != nil {
+		return runC06History(c)
+	}
 	out.Stats = map[string]int{}
 	g := simrt.LookupGrammar(c.Grammar)
 	if g == nil {
@@ -340,7 +437,74 @@ func runC06(c Case) (out Outcome) {
 
 // ---------- C12 ----------
 
+// runMarathon: see Prog.Marathon. The fresh reference is computed once per
+// distinct input (a fresh parser's observation is a function of the input).
+func runMarathon(c Case) (out Outcome) {
+	out.Stats = map[string]int{}
+	p := *c.Prog
+	m := p.Marathon
+	g := simrt.LookupGrammar(p.Grammar)
+	if g == nil || m.Period < 1 || len(m.Rare) == 0 {
+		out.Skipped = "bad marathon"
+		return
+	}
+	fresh := map[string]string{}
+	stepFor := func(in string, rare bool) Step {
+		return Step{Input: in, Entry: -1, Exec: rare, AST: rare, Tree: rare}
+	}
+	want := func(st Step) string {
+		k := fmt.Sprint(st.Exec, st.Input)
+		if w, ok := fresh[k]; ok {
+			return w
+		}
+		q := Prog{Grammar: p.Grammar, Cfg: p.Cfg, Steps: []Step{st}}
+		w := runFresh(q, 0).String()
+		fresh[k] = w
+		return w
+	}
+	total := m.Cycles*m.Period + 1
+	var inst simrt.Instance
+	h := simrt.NewHash().AddString(p.Grammar).AddString(m.Filler)
+	_, over := counted(uint64(total)*20000+absBudget, func() {
+		for k := 0; k < total; k++ {
+			rare := k%m.Period == 0
+			in := m.Filler
+			if rare {
+				in = m.Rare[(k/m.Period)%len(m.Rare)]
+			}
+			st := stepFor(in, rare)
+			if k == 0 {
+				inst = g.New(p.Cfg, in)
+			} else {
+				inst.SetBuffer(in)
+				inst.Reset()
+			}
+			got := doStep(inst, st)
+			if rare || k%m.Period == 1 || k%4099 == 0 {
+				if w := want(st); w != got.String() {
+					out.Class = "reuse"
+					out.Detail = fmt.Sprintf("grammar %s cfg %+v: step %d of a long history (input %q; every step is Buffer=…; Reset(); Parse(); rare inputs %q every %d steps, filler %q in between)\n  fresh parser : %s\n  reused parser: %s",
+						p.Grammar, p.Cfg, k+1, in, m.Rare, m.Period, m.Filler, w, got)
+					return
+				}
+			}
+		}
+	})
+	if over && out.Class == "" {
+		out.Skipped = "marathon exceeds the step budget"
+		return
+	}
+	out.Stats["marathon_histories"] = 1
+	out.Stats["marathon_steps"] = total
+	out.Nontrivial = true
+	out.Sig = uint64(h.AddString(strings.Join(m.Rare, "|")))
+	return
+}
+
 func runC12(c Case) (out Outcome) {
+	if c.Prog != nil && c.Prog.Marathon != nil {
+		return runMarathon(c)
+	}
 	out.Stats = map[string]int{}
 	p := *c.Prog
 	p.Steps = append([]Step{}, p.Steps...)
@@ -511,7 +675,7 @@ func runC14(t *testing.T, c Case, keepLog bool) (out Outcome) {
 					clients = append(clients, simrt.Client{Name: fmt.Sprintf("c%d", i), Run: func() { together[i] = runProg(p) }})
 				}
 				res = simrt.Run(simrt.Config{Tape: c.SchedTape, ActiveNum: c.ActiveNum, ActiveDen: c.ActiveDen, SiteSeed: c.SiteSeed,
-					Budget: c.Budget, KeepLog: keepLog}, clients)
+					Budget: c.Budget, KeepLog: keepLog, FreezeClient: c.FreezeClient, FreezeAt: c.FreezeAt}, clients)
 			})
 		}()
 		if out.Skipped != "" {
@@ -524,6 +688,7 @@ func runC14(t *testing.T, c Case, keepLog bool) (out Outcome) {
 		if res.Abandoned {
 			out.Stats["abandoned"] = 1
 		}
+		out.Stats["freeze_windows_opened"] += res.Thawed
 		out.Nontrivial = res.Preemptions > 0
 		out.Sig = res.LogHash
 		out.Log = res.Log
@@ -569,7 +734,7 @@ func refOnly(c Case) uint64 {
 	switch c.Mode {
 	case "c06":
 		g := simrt.LookupGrammar(c.Grammar)
-		if g == nil {
+		if g == nil || len(c.History) > 0 || c.Marathon != nil {
 			return 0
 		}
 		st := Step{Input: c.Input, Entry: c.Entry, Exec: true, AST: true, Tree: true}
@@ -579,7 +744,7 @@ func refOnly(c Case) uint64 {
 		return uint64(simrt.NewHash().AddString(ref.String()))
 	case "c12":
 		p := *c.Prog
-		if simrt.LookupGrammar(p.Grammar) == nil {
+		if simrt.LookupGrammar(p.Grammar) == nil || p.Marathon != nil {
 			return 0
 		}
 		rh := simrt.NewHash()
@@ -640,10 +805,53 @@ func pickEntry(r *simrt.SplitMix64, g *GrammarInfo) int {
 	return -1
 }
 
+func genMarathon(r *simrt.SplitMix64, g *GrammarInfo, period int) *Marathon {
+	m := &Marathon{Period: period, Cycles: 2}
+	best := g.Inputs[r.Intn(len(g.Inputs))]
+	for range 6 {
+		if c := g.Inputs[r.Intn(len(g.Inputs))]; len(c) < len(best) {
+			best = c
+		}
+	}
+	m.Filler = best
+	for tries := 0; len(m.Rare) < 3 && tries < 200; tries++ {
+		if in := g.Inputs[r.Intn(len(g.Inputs))]; len(in) <= 64 {
+			m.Rare = append(m.Rare, in)
+		}
+	}
+	if len(m.Rare) == 0 {
+		m.Rare = []string{best}
+	}
+	return m
+}
+
 func genC06(seed uint64, i int) Case {
 	r := simrt.NewRNG(simrt.DeriveN(seed, "c06", i))
 	g := pickGrammar(r)
 	c := Case{Mode: "c06", Run: i, Grammar: g.Name, Input: pickInput(r, g), Entry: pickEntry(r, g), Cfg: pickCfg(r, g)}
+	// reused instances: short histories, and long ones whose rare inputs recur
+	// at multiples of 256 and 65 536 steps
+	if !g.Heavy && len(g.Inputs) > 3 {
+		switch {
+		case i%25000 == 17:
+			c.Marathon = genMarathon(r, g, 65536)
+			c.Entry, c.FaultCfg.Den = -1, 64
+			return c
+		case i%1500 == 11:
+			c.Marathon = genMarathon(r, g, 256)
+			c.Entry, c.FaultCfg.Den = -1, 64
+			return c
+		case i%20 == 3:
+			for range 2 + r.Intn(9) {
+				in := pickInput(r, g)
+				for tries := 0; len(in) > 200 && tries < 10; tries++ {
+					in = pickInput(r, g)
+				}
+				c.History = append(c.History, in)
+			}
+			c.Entry, c.Input = -1, ""
+		}
+	}
 	c.FaultCfg.Den = 64
 	rates := []uint32{0, 4, 16, 32}
 	kind := r.Intn(8)
@@ -705,6 +913,19 @@ func genProg(r *simrt.SplitMix64, g *GrammarInfo, minSteps, maxSteps int, faults
 func genC12(seed uint64, i int) Case {
 	r := simrt.NewRNG(simrt.DeriveN(seed, "c12", i))
 	g := pickGrammar(r)
+	if i%1500 == 7 || i%200 == 11 {
+		for tries := 0; g.Heavy && tries < 20; tries++ {
+			g = pickGrammar(r)
+		}
+		if !g.Heavy && len(g.Inputs) > 3 {
+			period, u := 65536, 1
+			if i%1500 != 7 {
+				period, u = 256, r.Intn(4)
+			}
+			p := Prog{Grammar: g.Name, Cfg: simrt.InstCfg{U: u, Size: []int{0, 1, 1 << 15}[r.Intn(3)], NoMemo: r.Chance(1, 8)}, Marathon: genMarathon(r, g, period)}
+			return Case{Mode: "c12", Run: i, Prog: &p}
+		}
+	}
 	faults := i%2 == 1 // fault-free and fault-injecting histories are separate sub-runs
 	maxSteps := 12
 	if g.Heavy {
@@ -748,10 +969,31 @@ func genC14(seed uint64, i int, race bool, cold bool) Case {
 			}
 		}
 		if cold {
+			// no budget guard precedes a cold concurrent run: memoisation on
+			// and inputs of bounded size; half of the cold clients take the
+			// largest such inputs (state that is grown or built lazily is
+			// usually size-dependent) and print their trees
 			p.Cfg.NoMemo = false
+			gi := byName[p.Grammar]
+			var big []string
+			for _, in := range gi.Inputs {
+				if len(in) <= 1200 && !gi.Heavy {
+					big = append(big, in)
+				}
+			}
+			slices.SortFunc(big, func(a, b string) int { return len(b) - len(a) })
+			if len(big) > 4 {
+				big = big[:4]
+			}
+			extreme := r.Chance(1, 2) && len(big) > 0
 			for k := range p.Steps {
+				if extreme {
+					p.Steps[k].Input = big[r.Intn(len(big))]
+					p.Steps[k].Tree, p.Steps[k].AST = true, true
+					continue
+				}
 				for tries := 0; len(p.Steps[k].Input) > 64 && tries < 20; tries++ {
-					p.Steps[k].Input = pickInput(r, byName[p.Grammar])
+					p.Steps[k].Input = pickInput(r, gi)
 				}
 				if len(p.Steps[k].Input) > 64 {
 					p.Steps[k].Input = ""
@@ -773,6 +1015,10 @@ func genC14(seed uint64, i int, race bool, cold bool) Case {
 	}
 	c.SiteSeed = r.Uint64()
 	c.Budget = []uint32{2, 4, 8, 32}[r.Intn(4)]
+	if r.Chance(1, 3) {
+		c.FreezeClient = r.Intn(len(c.Clients))
+		c.FreezeAt = 1 + int(r.Float()*r.Float()*400)
+	}
 	return c
 }
 
@@ -781,7 +1027,7 @@ func genC14(seed uint64, i int, race bool, cold bool) Case {
 // memWatchdog ends the process when the code under test eats memory without
 // bound (exit status 77; the orchestrator reports the case as a crash).
 func memWatchdog() {
-	limit := uint64(3 << 30)
+	limit := uint64(4 << 30)
 	if v := os.Getenv("VERIF_MEMLIMIT_MB"); v != "" {
 		var n uint64
 		fmt.Sscan(v, &n)
@@ -790,12 +1036,13 @@ func memWatchdog() {
 		}
 	}
 	go func() {
-		s := []metrics.Sample{{Name: "/memory/classes/total:bytes"}}
+		// memory in use = everything mapped minus what was given back to the OS
+		s := []metrics.Sample{{Name: "/memory/classes/total:bytes"}, {Name: "/memory/classes/heap/released:bytes"}}
 		for {
 			time.Sleep(50 * time.Millisecond)
 			metrics.Read(s)
-			if s[0].Value.Uint64() > limit {
-				fmt.Fprintf(os.Stderr, "memory watchdog: %d MB in use, limit %d MB\n", s[0].Value.Uint64()>>20, limit>>20)
+			if used := s[0].Value.Uint64() - s[1].Value.Uint64(); used > limit {
+				fmt.Fprintf(os.Stderr, "memory watchdog: %d MB in use, limit %d MB\n", used>>20, limit>>20)
 				os.Exit(77)
 			}
 		}
